@@ -580,3 +580,33 @@ package store
 //@   props C14
 //@   ghost herr error := result0 of call fn #0
 //@   ensures [C14] handler-error-returned: called(herr) && herr != nil ==> result != nil
+
+// ---- the write path as a whole (C03/C04/C17): everything that reaches the single writer is a batch of chain
+// headers (channel invariant of Store.writes, established by Append), and every step of the flush loop starts
+// from the representation invariant
+//@ chaninv Store.writes(hs): forall i int :: 0 <= i && i < len(hs) ==> onChain(hs[i])
+
+//@ func (*Store).Append(s, ctx, headers)
+//@   props C04
+//@   requires [C04] chain-headers: forall i int :: 0 <= i && i < len(headers) ==> onChain(headers[i])
+//@   ensures [C04] queued-or-refused: result == nil ==> len(headers) == 0 || sent("Store.writes") == old(sent("Store.writes")) + 1
+
+//@ func (*Store).flushLoop(s, ctx)
+//@   props C04, C06
+//@   requires storeINV(s) && !isBatch(s.ds) && s.pending != nil
+//@   modifies $now, ghost:hcHas, ghost:hcVal, ghost:icHas, ghost:icVal, ghost:btHas, ghost:btPuts, ghost:btVal, ghost:dsHas, ghost:dsVal, ghost:dsWrites, AP_set, AP_val_Hdr, AT_u64, MH_Int_Hdr_has, MH_Int_Hdr_val, MH_Str_Int_has, MH_Str_Int_val, sub.count, MH_Int_Int_has, MH_Int_Int_val, ghost:arrived
+//@   ensures [C04] inv: storeINV(s)
+//@ loop 0:
+//@   invariant inv: storeINV(s) && !isBatch(s.ds) && s.pending != nil
+//@ loop 1:
+//@   invariant inv: storeINV(s) && !isBatch(s.ds) && s.pending != nil
+
+// Start: a store opened on any datastore content satisfying the persistent part of the invariant hands the full
+// representation invariant to the flush loop it spawns (C06: restart re-establishes the invariant)
+//@ func (*Store).Start(s, ctx)
+//@   props C06
+//@   requires hdrCacheOK() && dsHdrOK() && dsIdxOK() && idxCacheOK() && batchOK(s.pending) && s.pending != nil
+//@   requires fresh-state: (forall h uint64 @ has(s.pending.headers, h) :: !has(s.pending.headers, h)) && !apSet(s.contiguousHead) && !apSet(s.tailHeader)
+//@   requires s.ds != nil && !isBatch(s.ds) && s.heightSub != nil && s.heightIndex != nil
+//@   modifies $now, ghost:hcHas, ghost:hcVal, ghost:dsHas, ghost:dsWrites, ghost:dsDeletes, elems(Bytes), AP_set, AP_val_Hdr, AT_u64, sub.count, MH_Int_Int_has, MH_Int_Int_val, ghost:arrived, Store.writesDn, Store.cancel
+//@   ensures [C06] no-header-lost: forall k Key @ dsHas[k] :: k != headKey && k != tailKey ==> (dsHas[k] <==> old(dsHas)[k])
